@@ -181,6 +181,12 @@ type Finisher interface {
 	Finish(cover map[string]int, extra map[string]any)
 }
 
+// PostRunner is implemented by properties with a second, driver-side phase (batch builds and program runs)
+// that consumes what the workers left in the scratch directory.
+type PostRunner interface {
+	PostRun(env *Env, d *Driver)
+}
+
 // CustomRunner is implemented by properties that do not fit the case/worker
 // model (program-executing and fault-enumeration checks). The driver calls
 // RunCustom instead of sharding cases.
@@ -324,4 +330,11 @@ func (r *Rec) First() (string, string) {
 		return "", ""
 	}
 	return r.viol[0].Site, r.viol[0].Msg
+}
+
+// HashString is FNV-1a over s.
+func HashString(s string) uint64 {
+	h := fnv.New64a()
+	h.Write([]byte(s))
+	return h.Sum64()
 }
